@@ -54,6 +54,21 @@ class Marker:
     """Object handed to a render; must be unreachable afterwards."""
 
 
+def _body_points(src: str, tag: str) -> str:
+    """A fault point at the start of the body of every component tag that has a body (a tag that prints nothing is
+    allowed beside fills)."""
+    import re
+    # (not into a literally empty body: `{% c %}{% endc %}` passes no content at all, with a tag in it it would pass an
+    #  empty default fill)
+    return re.sub(r"(\{% " + re.escape(tag) + r" (?:[^%]|%(?!\}))*?(?<!/) %\})(?!\s*\{% end" + re.escape(tag) + r" %\})",
+                  r"\1{% vf_ptb %}", src)
+
+
+def _page_src(prog) -> str:
+    return _body_points(P.page_src(prog).replace("{% load lib_" + prog["mode"] + " vf_tags %}",
+                                                 "{% load lib_" + prog["mode"] + " vf_tags vf_c06 %}", 1), "c_" + prog["mode"])
+
+
 def _install(prog):
     """Components with every hook as a fault point."""
     from django.template import engines
@@ -67,6 +82,12 @@ def _install(prog):
         def vf_pt(context, n):
             cid = context.get("_DJC_COMPONENT_CTX")
             point("tag", [n, cid])
+            return ""
+
+        @l2.simple_tag(takes_context=True)
+        def vf_ptb(context):
+            # user code inside the BODY of a component tag (it runs while the library collects the fills of that tag)
+            point("body", [0, context.get("_DJC_COMPONENT_CTX")])
             return ""
         eng.template_libraries["vf_c06"] = l2
     extra = {}
@@ -91,7 +112,7 @@ def _install(prog):
         tag = "c_" + prog["mode"]
         extra[i] = {"on_render_before": before, "on_render_after": after,
                     "template": "{% load lib_" + prog["mode"] + " vf_tags vf_c06 %}{% vf_pt " + str(i) + " %}" +
-                                P.tpl_src(prog["comps"][i - 1]["tpl"], tag)}
+                                _body_points(P.tpl_src(prog["comps"][i - 1]["tpl"], tag), tag)}
     P.install(prog, extra=extra)
     # get_context_data / inject fault points: wrap what make_component built
     for i in range(1, len(prog["comps"]) + 1):
@@ -160,7 +181,7 @@ def _run_once(prog, at: int, exc, record: bool = False) -> Dict[str, Any]:
     res: Dict[str, Any] = {"err": "", "same_object": None, "msg": "", "out": None}
     pre = provtrace.snapshot_now() if record and provtrace.start() else None
     try:
-        html = Template(P.page_src(prog)).render(ctx)
+        html = Template(_page_src(prog)).render(ctx)
         res["out"] = P.tokens(html)[0]
     except BaseException as e:  # noqa: BLE001
         res["err"] = type(e).__name__
@@ -183,7 +204,7 @@ def _run_once(prog, at: int, exc, record: bool = False) -> Dict[str, Any]:
         # SAME Context object (a view that catches the error and renders a fallback with its context)
         PLAN.update(n=0, at=-1, exc=None, log=[])
         try:
-            res["same_ctx_out"] = P.tokens(Template(P.page_src(prog)).render(ctx))[0]
+            res["same_ctx_out"] = P.tokens(Template(_page_src(prog)).render(ctx))[0]
             res["same_ctx_err"] = ""
         except BaseException as e2:  # noqa: BLE001
             res["same_ctx_out"] = None
@@ -267,7 +288,8 @@ def judge(chk: Check, prog, exp, res) -> None:
                               "same_object": r["same_object"], "msg": r["msg"]},
                           key=None)
             continue
-        if "An error occured while rendering components" not in r["msg"]:
+        page_level_body = bool(pt) and pt[0] == "body" and not pt[1][1]
+        if "An error occured while rendering components" not in r["msg"] and not page_level_body:
             chk.violation(c, {"what": "exception-not-annotated-with-component-path", "msg": r["msg"]})
             continue
         bad = {k: v for k, v in r["residue"].items() if v}
